@@ -92,7 +92,22 @@ def one_pick(spec, out, r, prices, mnr, k, split, d):
     if n_outer > len(raw.cType) or any(raw.cType[i] != "N" for i in nrows):
         return out.fail("the last %d rows of the problem are not the nodal restrictions listed in map_nodal_restr" % n_outer)
     # which of them is the balance of (node, t)?  decided from the mapping, not from the order of the list
-    t_local = t - min(int(e[0]) for e in target.map_nodal_restr) if split else t
+    if split:
+        # interval problems number their steps locally: the shift follows from the interval's own mapping and
+        # the same rows of the split problem's mapping (original steps)
+        off = 0
+        for op_ in r.op.ops:
+            if op_ is target:
+                break
+            off += len(op_.c)
+        gm = r.op.mapping
+        gsel = gm[(gm.index >= off) & (gm.index < off + len(target.c))]
+        if len(gsel) == 0 or len(target.mapping) == 0:
+            return out.drop("empty_interval_mapping")
+        shift = int(gsel["time_step"].values[0]) - int(target.mapping["time_step"].values[0])
+        t_local = t - shift
+    else:
+        t_local = t
     mp = target.mapping
     sel = mp[(mp["type"] == "d") & (mp["node"].astype(str) == node) & (mp["time_step"].astype(int) == t_local)]
     exp = np.zeros(raw.n)
